@@ -74,6 +74,9 @@ pub struct PureCase {
     pub assign: Vec<u8>,
     pub sink: u8,
     pub fiddle_log: bool,
+    /// order in which the pool's muxers (plus a twin of the first) take turns, one call at a time, on one thread
+    #[serde(default)]
+    pub schedule: Vec<u8>,
 }
 
 fn reference(c: &ValidCase) -> (Lowered, Run) {
@@ -160,6 +163,31 @@ pub fn eval_pure(c: &PureCase) -> Outcome {
         if r2.out != r.out || !same_returns(&r2.results, &r.results) {
             o.fail("same_bytes", "same_bytes.second_instance", format!("history {} gives different results in a second muxer instance", i));
             return o;
+        }
+    }
+    // all muxers of the pool alive at once on this thread, taking turns call by call (plus a twin of the first history)
+    {
+        let mut runs: Vec<(&crate::exec::CCfg, &[crate::exec::COp])> = refs.iter().map(|(l, _)| (&l.cfg, &l.ops[..])).collect();
+        runs.push((&refs[0].0.cfg, &refs[0].0.ops[..]));
+        let got = crate::exec::run_lockstep(&runs, &c.schedule);
+        for (i, g) in got.iter().enumerate() {
+            let r = &refs[if i < refs.len() { i } else { 0 }].1;
+            if let Some(p) = &g.panic {
+                o.aborted_by_panic = Some(p.clone());
+                o.fail("same_bytes", "same_bytes.alternating_instances.panic", format!("history {} panics when {} muxers take turns on one thread, not when run alone: {}", i, runs.len(), p));
+                return o;
+            }
+            if g.out != r.out || !same_returns(&g.results, &r.results) {
+                o.fail(
+                    "same_bytes",
+                    "same_bytes.alternating_instances",
+                    format!("history {} gives different results when {} muxers take turns call by call on one thread ({} vs {} bytes, returns equal: {})", i, runs.len(), g.out.len(), r.out.len(), same_returns(&g.results, &r.results)),
+                );
+                return o;
+            }
+        }
+        if c.schedule.len() >= 4 {
+            o.class("alternating_instances_with_schedule");
         }
     }
     // the same frames at another memory alignment (sub-slices of a larger buffer)
@@ -273,8 +301,8 @@ pub fn eval_pure(c: &PureCase) -> Outcome {
 
 fn pure_strategy(t: Tier) -> BoxedStrategy<PureCase> {
     let (n, mv) = if t == Tier::Quick { (4, 8) } else { (10, 20) };
-    (vec(valid_case_strategy(mv, mv), 1..=n), 0u8..16, vec(any::<u8>(), 0..12), 0u8..9, any::<bool>())
-        .prop_map(|(pool, threads, assign, sink, fiddle_log)| PureCase { pool, threads, assign, sink, fiddle_log })
+    (vec(valid_case_strategy(mv, mv), 1..=n), 0u8..16, vec(any::<u8>(), 0..12), 0u8..9, any::<bool>(), vec(any::<u8>(), 0..96))
+        .prop_map(|(pool, threads, assign, sink, fiddle_log, schedule)| PureCase { pool, threads, assign, sink, fiddle_log, schedule })
         .boxed()
 }
 
@@ -697,6 +725,70 @@ fn eval_env(c: &ValidCase) -> Outcome {
         &[("RUST_BACKTRACE", "full"), ("RUST_LOG", "trace"), ("MUXIDE_DEBUG", "1"), ("DEBUG", "1")],
         &[("HOME", "/nonexistent"), ("TMPDIR", "/nonexistent"), ("USER", "nobody"), ("TZ", "America/St_Johns")],
     ];
+    // the kind of file behind the standard streams: /dev/null, a regular file, a closed descriptor, a terminal (through
+    // script(1), which runs the command on a pseudo-terminal; skipped when it is not installed or no pty can be had)
+    {
+        let dir = crate::props::c20::case_dir();
+        let case_file = dir.join("case.json");
+        let _ = std::fs::write(&case_file, &json);
+        let digest_of = |label: &str, build: &dyn Fn(&mut std::process::Command, &std::path::Path)| -> Option<String> {
+            let out_file = dir.join(format!("digest-{}.txt", label));
+            let _ = std::fs::remove_file(&out_file);
+            let mut cmd = std::process::Command::new(&exe);
+            for k in vars {
+                cmd.env_remove(k);
+            }
+            build(&mut cmd, &out_file);
+            let ok = cmd.output().map(|x| x.status.success()).unwrap_or(false);
+            if !ok {
+                return None;
+            }
+            std::fs::read_to_string(&out_file).ok()
+        };
+        let at = format!("@{}", case_file.display());
+        let plain = |cmd: &mut std::process::Command, out: &std::path::Path| {
+            cmd.arg("case-digest").arg(&at).arg(out);
+        };
+        let mut kinds: Vec<(&str, Option<String>)> = Vec::new();
+        kinds.push(("stderr_to_dev_null", digest_of("null", &|cmd, out| {
+            plain(cmd, out);
+            cmd.stdin(std::process::Stdio::null()).stdout(std::process::Stdio::null()).stderr(std::process::Stdio::null());
+        })));
+        kinds.push(("stderr_to_a_file", digest_of("file", &|cmd, out| {
+            plain(cmd, out);
+            if let Ok(f) = std::fs::File::create(dir.join("stderr.txt")) {
+                cmd.stderr(f);
+            }
+        })));
+        if std::path::Path::new("/usr/bin/script").exists() {
+            let exe_s = exe.display().to_string();
+            kinds.push(("standard_streams_on_a_terminal", {
+                let out_file = dir.join("digest-pty.txt");
+                let mut cmd = std::process::Command::new("/usr/bin/script");
+                for k in vars {
+                    cmd.env_remove(k);
+                }
+                cmd.arg("-qec").arg(format!("'{}' case-digest '{}' '{}'", exe_s, at, out_file.display())).arg("/dev/null");
+                cmd.stdin(std::process::Stdio::null());
+                let ok = cmd.output().map(|x| x.status.success()).unwrap_or(false);
+                if ok { std::fs::read_to_string(&out_file).ok() } else { None }
+            }));
+        }
+        for (label, got) in kinds {
+            o.sub_evals += 1;
+            match got {
+                Some(x) if x == base => o.class(&format!("stdio:{}", label)),
+                Some(x) => {
+                    let what = if x.lines().next() != base.lines().next() { "return_values" } else { "output_bytes" };
+                    o.fail("environment", format!("environment.{}.{}", what, label), format!("the same history gives different {} in a process with {}", what.replace('_', " "), label.replace('_', " ")));
+                    let _ = std::fs::remove_dir_all(&dir);
+                    return o;
+                }
+                None => o.unconstrained.push(format!("child process failed / unavailable: {}", label)),
+            }
+        }
+        let _ = std::fs::remove_dir_all(&dir);
+    }
     for set in variants {
         o.sub_evals += 1;
         match run(set) {
@@ -838,6 +930,81 @@ fn eval_clock(c: &ClockCase) -> Outcome {
     o
 }
 
+// ------------------------------------------------------------------------------------------
+// fragmented muxers taking turns on one thread
+
+#[derive(Clone, Debug, Serialize, Deserialize, PartialEq, Eq, Hash)]
+pub struct FragPool {
+    pub pool: Vec<crate::fragcase::FragCase>,
+    pub schedule: Vec<u8>,
+    /// a progressive history muxed in between (a third of the cases): the two muxer kinds share the codec modules
+    pub progressive: Option<ValidCase>,
+}
+
+pub fn eval_frag_pool(c: &FragPool) -> Outcome {
+    let mut o = Outcome::default();
+    if c.pool.is_empty() {
+        return o;
+    }
+    let lowered: Vec<crate::fragcase::LoweredFrag> = c.pool.iter().map(crate::fragcase::lower).collect();
+    let alone: Vec<crate::frag::FRun> = lowered.iter().map(|l| crate::frag::run_frag(&l.cfg, &l.ops)).collect();
+    if let Some(p) = alone.iter().find_map(|r| r.panic.clone()) {
+        o.aborted_by_panic = Some(p);
+        return o;
+    }
+    let prog = c.progressive.as_ref().map(|v| {
+        let l = lower(v);
+        let r = run_history(&l.cfg, &l.ops);
+        (l, r)
+    });
+    // all muxers alive at once, plus a twin of the first; a progressive muxer is created, fed and finished in the middle
+    let mut runs: Vec<(&crate::frag::FCfg, &[crate::frag::FOp])> = lowered.iter().map(|l| (&l.cfg, &l.ops[..])).collect();
+    runs.push((&lowered[0].cfg, &lowered[0].ops[..]));
+    let first = crate::frag::run_frag_lockstep(&runs, &c.schedule);
+    for (i, g) in first.iter().enumerate() {
+        let r = &alone[if i < alone.len() { i } else { 0 }];
+        if g.panic.is_some() || g.results != r.results || g.build_err != r.build_err {
+            let at = g.results.iter().zip(r.results.iter()).position(|(a, b)| a != b);
+            o.fail(
+                "same_bytes",
+                "same_bytes.fragmented.alternating_instances",
+                format!("fragmented history {} gives different results when {} fragmented muxers take turns call by call on one thread (first differing call: {:?}, panic: {:?})", i, runs.len(), at, g.panic),
+            );
+            return o;
+        }
+    }
+    if let Some((l, r)) = &prog {
+        if r.panic.is_none() {
+            // progressive run between two halves of a fragmented history
+            let l0 = &lowered[0];
+            let cut = l0.ops.len() / 2;
+            let _first_half = crate::frag::run_frag(&l0.cfg, &l0.ops[..cut]);
+            let r2 = run_history(&l.cfg, &l.ops);
+            if r2.out != r.out || !same_returns(&r2.results, &r.results) {
+                o.fail("same_bytes", "same_bytes.progressive_after_fragmented", "a progressive history gives different results after a fragmented muxer was used on the thread");
+                return o;
+            }
+            // and the fragmented history as a whole after the progressive one
+            let again = crate::frag::run_frag(&l0.cfg, &l0.ops);
+            if again.results != alone[0].results {
+                o.fail("same_bytes", "same_bytes.fragmented_after_progressive", "a fragmented history gives different results after a progressive muxer was used on the thread");
+                return o;
+            }
+            o.class("progressive_in_between");
+        }
+    }
+    let segs: usize = alone.iter().map(|r| r.results.iter().filter(|x| matches!(x, crate::frag::FRes::Flush(Some(_)))).count()).sum();
+    o.nontrivial = c.pool.len() >= 2 && c.schedule.len() >= 4 && segs >= 2;
+    o
+}
+
+pub fn frag_pool_strategy(t: Tier) -> BoxedStrategy<FragPool> {
+    let (n, m) = if t == Tier::Quick { (3, 14) } else { (6, 40) };
+    (vec(crate::fragcase::frag_case_strategy(m), 1..=n), vec(any::<u8>(), 0..120), proptest::option::weighted(0.3, valid_case_strategy(8, 8)))
+        .prop_map(|(pool, schedule, progressive)| FragPool { pool, schedule, progressive })
+        .boxed()
+}
+
 pub fn def() -> PropertyDef {
     PropertyDef {
         fuzz_targets: &[],
@@ -854,6 +1021,7 @@ pub fn def() -> PropertyDef {
         ],
         subs: vec![
             Box::new(PSub { name: "instances_threads_sinks", quick: 1200, thorough: 40000, strat: pure_strategy, eval: eval_pure }),
+            Box::new(PSub { name: "fragmented_instances", quick: 3000, thorough: 100000, strat: frag_pool_strategy, eval: eval_frag_pool }),
             Box::new(PSub { name: "equivalent_paths", quick: 8000, thorough: 250000, strat: path_strategy, eval: eval_paths }),
             Box::new(ESub { name: "send_generic", run: run_probe, replay: replay_probe }),
             Box::new(LSub { name: "long_recordings", cases: long_sink_cases, eval: eval_long_sinks, note: crate::scenario::LONG_NOTE }),
